@@ -22,6 +22,19 @@ reg("C07",
                  "the code is data-race free: only synchronisation operations are scheduling points"],
     )
 
+reg("C07",
+    name="C07_ctx_mt", src="harness/C07_repro.cpp", threads=True,
+    anchor_files=["src/hgraph/runtime/global_state.cpp", "include/hgraph/runtime/global_state.h", "src/hgraph/runtime/graph.cpp", "src/hgraph/types/graph_wiring.cpp"],
+    quick=dict(defs=dict(NEMIT=1, DMAX=3, THREADS=2), symx=dict(shards=8, **{"max-wall": 900, "max-preempt": 1, "shard-depth": 8}), validate=4),
+    thorough=dict(defs=dict(NEMIT=2, DMAX=3, THREADS=2), symx=dict(shards=16, **{"max-wall": 1500, "max-preempt": 2, "shard-depth": 10}), validate=6),
+    reach=["end", "context_thread_and_plain_thread_interleaved"],
+    bounds="one interpreter thread selects its own GlobalContext (wiring-time global state with an extra entry) and builds and runs a graph inside it while a second "
+           "thread that selected no context builds and runs the same recipe; every interleaving at synchronisation operations with at most max-preempt preemptions",
+    outside="data races; more threads; contexts nested on one thread",
+    assumptions=["threads are symx interpreter threads (thread_local storage is per interpreter thread); counterexamples are re-executed concretely inside symx along the recorded schedule",
+                 "the code is data-race free: only synchronisation operations are scheduling points"],
+    )
+
 META = dict(
     level="bounded symbolic model checking by self-composition: two (or more) runs of the same builder inside one path, the traces asserted equal for all values of the "
           "wall clock, the inputs and the start time; interfering histories enumerated; thorough adds two executors on interleaved interpreter threads",
